@@ -1,6 +1,190 @@
-/-! line-protocol handlers (stub: filled in when the suite is built) -/
-namespace Apko.Driver.Conflict
+import Apko.Model.Conflict
+import Apko.Driver.Formats
+/-! line-protocol handler for corr:conflict (C07).
 
-def handle (_args : List String) : Option String := none
+Request (tab separated):
+  c.inst <backend> <base> <pkgs> <go-outcome> <go-tree> <go-db>
+    backend   tarfs | memfs | dirfs
+    entry     hexname:kind:mode:uid:gid:sum:hextarget:size        kind ∈ d f l ; joined by `;`
+    pkg       hexname,hexversion,hexorigin,<.hex list of replaces>,<entries>   joined by `|`
+    outcome   ok | conflict:<hexname> | exists | error
+    go-tree   hexpath:kind:perm:uid:gid:x  joined by `;`   (x = sha1 hex of a file, hex target of a link)
+    go-db     one `p<recs>` per package joined by `|`, rec = hexname:isdir:mode:uid:gid joined by `;`
+Answer `impl \t verdict \t class`: impl = `outcome|tree|hex(db projection)` of the Impl model (to be
+compared with the same rendering of what the real code did), verdict = `pass` or `fail:<reasons>` of
+the oracle evaluated on Go's observation, class = the listed finding that explains every reason
+(`unlisted` when one reason has no listed explanation). -/
+namespace Apko.Driver.Conflict
+open Apko Apko.Conflict Apko.Path
+
+def rKind : String → Option Kind
+  | "d" => some .dir | "f" => some .reg | "l" => some .link | _ => none
+
+def wKind : Kind → String
+  | .dir => "d" | .reg => "f" | .link => "l"
+
+def rEntry (s : String) : Option Entry :=
+  match s.splitOn ":" with
+  | [n, k, m, u, g, sum, t, sz] =>
+    match rKind k, m.toNat?, u.toInt?, g.toInt?, sz.toNat? with
+    | some k, some m, some u, some g, some sz =>
+      some { name := unhexS n, kind := k, mode := m, uid := u, gid := g, sum := sum.toList, target := unhexS t, size := sz }
+    | _, _, _, _, _ => none
+  | _ => none
+
+def rEntries : String → Option (List Entry) := Driver.Formats.rMany ";" rEntry
+
+def rPkg (s : String) : Option Pkg :=
+  match s.splitOn "," with
+  | [n, v, o, r, es] =>
+    match rEntries es with
+    | some es => some { name := unhexS n, version := unhexS v, origin := unhexS o, replaces := Driver.Formats.rList r, entries := es }
+    | none => none
+  | _ => none
+
+def rPkgs : String → Option (List Pkg) := Driver.Formats.rMany "|" rPkg
+
+def rBackend : String → Option Backend
+  | "tarfs" => some .lazy | "memfs" => some .memfs | "dirfs" => some .dirfs | _ => none
+
+def rOutcome (s : String) : Option Outcome :=
+  if s = "ok" then some .ok else if s = "exists" then some .exists_ else if s = "error" then some .error
+  else match s.splitOn ":" with
+    | ["conflict", n] => some (.conflict (unhexS n))
+    | _ => none
+
+def wOutcome : Outcome → String
+  | .ok => "ok" | .exists_ => "exists" | .error => "error" | .conflict n => "conflict:" ++ hexS n
+
+def rONode (s : String) : Option ONode :=
+  match s.splitOn ":" with
+  | [p, k, perm, u, g, x] =>
+    match rKind k, perm.toNat?, u.toInt?, g.toInt? with
+    | some k, some perm, some u, some g =>
+      some { path := unhexS p, kind := k, perm := perm, uid := u, gid := g, x := if k = .link then unhexS x else x.toList }
+    | _, _, _, _ => none
+  | _ => none
+
+def rORec (s : String) : Option ORec :=
+  match s.splitOn ":" with
+  | [n, d, m, u, g] =>
+    match m.toInt?, u.toInt?, g.toInt? with
+    | some m, some u, some g => some { name := unhexS n, isDir := d == "1", mode := m, uid := u, gid := g }
+    | _, _, _ => none
+  | _ => none
+
+def rODb (s : String) : Option (List (List ORec)) :=
+  Driver.Formats.rMany "|" (fun p => Driver.Formats.rMany ";" rORec (p.drop 1).toString) s
+
+/-! ## rendering the Impl run -/
+
+def wNode (p : PathK) : Node → String
+  | .dir perm => s!"{hexS (joinNames p)}:d:{perm}:0:0:"
+  | .file s perm _ _ => s!"{hexS (joinNames p)}:f:{perm}:0:0:{String.ofList s}"
+  | .link t _ perm _ => s!"{hexS (joinNames p)}:l:{perm}:0:0:{hexS t}"
+
+def dbDirPrefix : PathK := ["lib".toList, "apk".toList, "db".toList]
+
+def wTree (t : Tree) : String :=
+  let vis := t.filter fun e => !(dbDirPrefix.isPrefixOf e.1 && e.1.length > 3)
+  let sorted := vis.mergeSort fun a b => Formats.textLe (joinNames a.1) (joinNames b.1)
+  ";".intercalate (sorted.map fun e => wNode e.1 e.2)
+
+/-- the bookkeeping directory the harness creates before the install -/
+def dbDirs : List Entry :=
+  [{ name := "lib/apk/db".toList, kind := .dir, mode := 0o755 }]
+
+structure Run where
+  outcome : Outcome
+  st : St
+  recs : List (List Entry)
+
+def runCfg (c : Cfg) (base : List Entry) (pkgs : List Pkg) : Run :=
+  match installAll c (dbDirs ++ base) pkgs with
+  | .error (o, fl) => { outcome := o, st := { tree := [], flags := fl }, recs := [] }
+  | .ok (st, all) => { outcome := .ok, st := st, recs := recordAll st.inst all }
+
+def wRun (pkgs : List Pkg) (r : Run) : String :=
+  match r.outcome with
+  | .ok =>
+    match dbText Driver.Formats.b64 pkgs r.recs with
+    | some db => s!"ok|{wTree r.st.tree}|{hexS db}"
+    | none => "ok|dberr|"
+  | o => wOutcome o ++ "||"
+
+/-! ## classes: which listed finding explains a reason of the oracle -/
+
+def reasonName (r : Text) : Text := (r.dropWhile (· != ':')).drop 1
+def reasonKind (r : Text) : String := String.ofList (r.takeWhile (· != ':'))
+
+/-- the Impl run raised the flag that explains the reason, or the recorded data themselves do -/
+def explain (pkgs : List Pkg) (impl : Run) (implReasons : List Text) (r : Text) : Option String :=
+  let n := reasonName r
+  let fl := impl.st.flags
+  let anyEmpty := fl.any fun f => match f with | .emptyOrigin _ => true | _ => false
+  let anyVer := fl.any fun f => match f with | .versioned _ => true | _ => false
+  let lof := fl.any fun f => match f with | .linkUntracked m => m == n | _ => false
+  let thr := fl.any fun f => match f with | .throughLink m d => m == n || d == n | _ => false
+  let anyThr := fl.any fun f => match f with | .throughLink _ _ => true | _ => false
+  let bk := fl.any fun f => match f with | .baseKept m => m == n | _ => false
+  let ali := fl.any fun f => match f with | .alias _ => true | _ => false
+  let dropped := impl.recs.any fun files => (droppedNames files).contains n
+  let recOwner := (pkgs.zip impl.recs).any fun (_, files) => files.any fun e => e.name == n ∨ Formats.trimSuffixSlash e.name == n
+  match reasonKind r with
+  | "outcome" | "content" =>
+    if anyEmpty then some "F07b" else if anyVer then some "F07h" else if anyThr then some "F07d" else none
+  | "unrecorded" => if dropped then some "F07a" else if ali then some "F07g" else none
+  | "stale" => if lof then some "F07c" else if thr then some "F07d" else if ali then some "F07g" else none
+  | "stray" => if thr then some "F07d" else if ali then some "F07g" else none
+  | "multi" => if ali then some "F07g" else if bk then some "F07i" else none
+  | "owner" => if recOwner && implReasons.contains r then some "F07e" else none
+  | "mode" => if implReasons.contains r then some "F07f" else none
+  | _ => none
+
+/-- the observation the Impl run predicts (for the reasons the model itself foresees) -/
+def implObs (pkgs : List Pkg) (impl : Run) : List ONode × List (List ORec) :=
+  let nodes := impl.st.tree.map fun (p, n) =>
+    match n with
+    | .dir perm => ({ path := joinNames p, kind := .dir, perm := perm, uid := 0, gid := 0, x := [] } : ONode)
+    | .file s perm _ _ => { path := joinNames p, kind := .reg, perm := perm, uid := 0, gid := 0, x := s }
+    | .link t _ perm _ => { path := joinNames p, kind := .link, perm := perm, uid := 0, gid := 0, x := t }
+  let recs := (pkgs.zip impl.recs).map fun (_, files) =>
+    match Formats.sortHeaders (files.map toRec) with
+    | none => []
+    | some sorted => sorted.map fun r =>
+      ({ name := if r.isDir then Formats.trimSuffixSlash r.name else r.name, isDir := r.isDir, mode := r.mode % 512, uid := r.uid, gid := r.gid } : ORec)
+  (nodes, recs)
+
+def classOf (pkgs : List Pkg) (impl : Run) (implReasons : List Text) (reasons : List Text) : String :=
+  let cs := reasons.map (explain pkgs impl implReasons)
+  if cs.any Option.isNone then "unlisted"
+  else match cs.head? with
+    | some (some c) => c
+    | _ => "-"
+
+def handle (args : List String) : Option String :=
+  match args with
+  | ["c.inst", be, base, pkgs, gout, gtree, gdb] =>
+    some <|
+    match rBackend be, rEntries base, rPkgs pkgs, rOutcome gout with
+    | some be, some base, some pkgs, some gout =>
+      let impl := runCfg { backend := be } base pkgs
+      let implS := wRun pkgs impl
+      let gt := if gout = .ok then rEntriesO gtree else some []
+      let gd := if gout = .ok then rODb gdb else some []
+      match gt, gd with
+      | some gt, some gd =>
+        let reasons := oracle be (dbDirs ++ base) pkgs gout gt gd
+        if reasons.isEmpty then s!"{implS}\tpass\t-" else
+        let (io, ir) := implObs pkgs impl
+        let implReasons := if impl.outcome = .ok then idbTruth (dbDirs ++ base) pkgs io ir else []
+        let why := ",".intercalate (reasons.map fun r => String.ofList (hex r))
+        let short := ",".intercalate ((reasons.map reasonKind).eraseDups)
+        s!"{implS}\tfail:{short}:{why}\t{classOf pkgs impl implReasons reasons}"
+      | _, _ => "bad-go-output\tfail:parse\tunlisted"
+    | _, _, _, _ => "bad-request\tfail:parse\tunlisted"
+  | _ => none
+where
+  rEntriesO : String → Option (List ONode) := Driver.Formats.rMany ";" rONode
 
 end Apko.Driver.Conflict
